@@ -3,17 +3,18 @@
 # (does not touch /repo's working tree, so several can run at once). prints DETECTED / MISSED / BROKEN per property.
 export GOFLAGS=-mod=mod GOPROXY=off GOSUMDB=off GOTOOLCHAIN=local
 P="$(readlink -f "$1")"; shift
+N="$(basename "$P")"; [ "$N" = "patch.diff" ] && N="$(basename "$(dirname "$P")")"
 W=$(mktemp -d /var/tmp/verif-mut2-XXXXXX)
 trap 'rm -rf "$W"' EXIT
 git -C /repo archive HEAD | tar -x -C "$W" || exit 2
 ( cd "$W" && patch -p1 -s < "$P" ) || { echo "patch does not apply: $P"; exit 2; }
-if ! (cd "$W" && go build ./gameboy/cpu/ ./gameboy/memory/ ./gameboy/timer/ ./gameboy/ppu/ ./gameboy/oam/ ./gameboy/audio/ ./gameboy/controller/ ./gameboy/serial/ ./gameboy/interrupts/ >/dev/null 2>&1 && gofmt -e gameboy/gameboy.go >/dev/null 2>&1 && go test -count=1 ./gameboy/cpu/ ./gameboy/timer/ >/dev/null 2>&1); then echo "$(basename $P): does not compile or fails pinned tests"; exit 3; fi
+if ! (cd "$W" && go build ./gameboy/cpu/ ./gameboy/memory/ ./gameboy/timer/ ./gameboy/ppu/ ./gameboy/oam/ ./gameboy/audio/ ./gameboy/controller/ ./gameboy/serial/ ./gameboy/interrupts/ >/dev/null 2>&1 && gofmt -e gameboy/gameboy.go >/dev/null 2>&1 && go test -count=1 ./gameboy/cpu/ ./gameboy/timer/ >/dev/null 2>&1); then echo "$N: does not compile or fails pinned tests"; exit 3; fi
 cd /verif
 export VERIF_REPO="$W" VERIF_EVIDENCE_DIR="$W/.evidence"; mkdir -p "$VERIF_EVIDENCE_DIR"
 for prop in "$@"; do
   out=$(./check $prop 2>&1); rc=$?
   v=$(echo "$out" | grep -c '^VIOLATION')
-  if [ $rc -eq 1 ] && [ $v -gt 0 ]; then echo "$(basename $P) $prop DETECTED ($v) $(echo "$out" | grep '^VIOLATION' | head -2 | sed 's/.*replay=\/verif\/replays\///' | tr '\n' ' ')";
-  elif [ $rc -eq 0 ]; then echo "$(basename $P) $prop MISSED";
-  else echo "$(basename $P) $prop BROKEN rc=$rc $(echo "$out" | grep CHECK- | head -2)"; fi
+  if [ $rc -eq 1 ] && [ $v -gt 0 ]; then echo "$N $prop DETECTED ($v) $(echo "$out" | grep '^VIOLATION' | head -2 | sed 's/.*replay=\/verif\/replays\///' | tr '\n' ' ')";
+  elif [ $rc -eq 0 ]; then echo "$N $prop MISSED";
+  else echo "$N $prop BROKEN rc=$rc $(echo "$out" | grep CHECK- | head -2)"; fi
 done
